@@ -350,6 +350,7 @@ package main
 // a code of the 30 s period that was already accepted is not evaluated again (C05 one-time)
 //@ pure func totpPeriodOf(t time_.Time) int64 = int64(fpFloor(float64(timeNanos(t) / 1000000000) / float64(30)))
 //@ ghost var ghostTotpGateSeen int64
+//@ ghost var ghostTotpLockoutSeen int64
 //@ ghost var ghostSavedTOTP bool
 //@ func (*RuntimeState).validateUserTOTP
 //@   requires ghostAuthed && username == ghostAuthUser                                                    #C08.totp-own-profile @C08,C06
@@ -362,14 +363,16 @@ package main
 // the last-check time seen in the critical section entered most recently (taking the mutex forgets the map)
 //@   atcall sync.Mutex).Lock sets ghostTotpGateSeen int64 (m *sync.Mutex) :: timeNanos(state.totpLocalRateLimit[username].lastCheckTime)
 //@   atcall github.com/pquerna/otp/totp.Validate requires (passcode string, secret string) :: ghostTotpGateSeen + 2000000000 <= nowNanos()  #C14.totp-spacing @C14,C16
-//@   atcall github.com/pquerna/otp/totp.Validate requires (passcode string, secret string) :: timeNanos(old(state.totpLocalRateLimit[username].lockoutExpirationTime)) <= nowNanos()  #C14.totp-lockout-respected @C14
+//@   atcall sync.Mutex).Lock sets ghostTotpLockoutSeen int64 (m *sync.Mutex) :: timeNanos(state.totpLocalRateLimit[username].lockoutExpirationTime)
+//@   atcall github.com/pquerna/otp/totp.Validate requires (passcode string, secret string) :: ghostTotpLockoutSeen <= nowNanos()  #C14.totp-lockout-respected @C14
+// (old() in the sincefirstlock clauses below: what the gate's critical section - the first acquisition - saw)
 // the gate is one critical section: when a code is evaluated, this attempt's time is already the published last-check
 // time (taking the mutex again would forget it), so attempts arriving meanwhile are refused by the gate
 //@   atcall github.com/pquerna/otp/totp.Validate requires (passcode string, secret string) :: hasKey(state.totpLocalRateLimit, username) && timeNanos(state.totpLocalRateLimit[username].lastCheckTime) == nowNanos()  #C14.totp-gate-published @C14,C16
 //@   ensures ret0 && ret1 == nil ==> state.totpLocalRateLimit[username].failCount == 0                     #C14.totp-reset-on-success @C14
-//@   ensures !ret0 && ret1 == nil && state.totpLocalRateLimit[username].failCount != old(state.totpLocalRateLimit[username].failCount) && state.totpLocalRateLimit[username].failCount % 5 == 0 ==> timeNanos(state.totpLocalRateLimit[username].lockoutExpirationTime) >= nowNanos() + 3600000000000  #C14.totp-lockout-escalates @C14
-//@   ensures !ret0 && ret1 == nil && old(state.totpLocalRateLimit[username].failCount) < 4000000000 && timeNanos(old(state.totpLocalRateLimit[username].lastCheckTime)) + 2000000000 <= nowNanos() && timeNanos(old(state.totpLocalRateLimit[username].lockoutExpirationTime)) <= nowNanos() && ghostProfile.LastSuccessfullTOTPCounter != totpPeriodOf(t) ==> state.totpLocalRateLimit[username].failCount >= 1  #C14.totp-failure-counted @C14
-//@   ensures !ret0 && ret1 == nil && old(state.totpLocalRateLimit[username].failCount) < 4000000000 && timeNanos(old(state.totpLocalRateLimit[username].lastCheckTime)) + 2000000000 <= nowNanos() && timeNanos(old(state.totpLocalRateLimit[username].lockoutExpirationTime)) <= nowNanos() && ghostProfile.LastSuccessfullTOTPCounter != totpPeriodOf(t) && timeNanos(old(state.totpLocalRateLimit[username].lastFailTime)) + 86400000000000 >= nowNanos() ==> state.totpLocalRateLimit[username].failCount == old(state.totpLocalRateLimit[username].failCount) + 1  #C14.totp-failures-accumulate-within-a-day @C14
+//@   ensures sincefirstlock !ret0 && ret1 == nil && state.totpLocalRateLimit[username].failCount != old(state.totpLocalRateLimit[username].failCount) && state.totpLocalRateLimit[username].failCount % 5 == 0 ==> timeNanos(state.totpLocalRateLimit[username].lockoutExpirationTime) >= nowNanos() + 3600000000000  #C14.totp-lockout-escalates @C14
+//@   ensures sincefirstlock !ret0 && ret1 == nil && old(state.totpLocalRateLimit[username].failCount) < 4000000000 && timeNanos(old(state.totpLocalRateLimit[username].lastCheckTime)) + 2000000000 <= nowNanos() && timeNanos(old(state.totpLocalRateLimit[username].lockoutExpirationTime)) <= nowNanos() && ghostProfile.LastSuccessfullTOTPCounter != totpPeriodOf(t) ==> state.totpLocalRateLimit[username].failCount >= 1  #C14.totp-failure-counted @C14
+//@   ensures sincefirstlock !ret0 && ret1 == nil && old(state.totpLocalRateLimit[username].failCount) < 4000000000 && timeNanos(old(state.totpLocalRateLimit[username].lastCheckTime)) + 2000000000 <= nowNanos() && timeNanos(old(state.totpLocalRateLimit[username].lockoutExpirationTime)) <= nowNanos() && ghostProfile.LastSuccessfullTOTPCounter != totpPeriodOf(t) && timeNanos(old(state.totpLocalRateLimit[username].lastFailTime)) + 86400000000000 >= nowNanos() ==> state.totpLocalRateLimit[username].failCount == old(state.totpLocalRateLimit[username].failCount) + 1  #C14.totp-failures-accumulate-within-a-day @C14
 
 //@ func (*RuntimeState).VIPAuthHandler
 //@   atcall vip.Client).ValidateUserOTP sets ghostVerifiedBits int (c *vip.Client, userID string, otp int, ok bool, err error) :: ghostVerifiedBits | AuthTypeSymantecVIP if ok && err == nil && userID == ghostAuthUser
